@@ -16,17 +16,19 @@ def run (line : String) : String :=
   | some "reset" => "ok"
   | some "validate" =>
     match parseEH ws "" with
-    | some p => showValOut (runValidate p)
+    | some p => showValOut (runValidate p) ++ " " ++ p.words
     | none => "bad-op"
   | some "mutate" =>
     match parseEH ws "b.", parseEH ws "m." with
-    | some b, some m => showValOut (runValidate b) ++ " | " ++ showValOut (runValidate m)
+    | some b, some m =>
+      showValOut (runValidate b) ++ " " ++ b.words ++ " | " ++ showValOut (runValidate m) ++ " " ++ m.words
     | _, _ => "bad-op"
   | _ => "bad-op"
 
 def step (_ : Unit) (line : String) : Unit × String := ((), run line)
 
-def validOf (p : ParsedEH) : Nat → Nat → Bool := fun i j => i == j && p.bits.getD j 0 == 1
+/-- the property is evaluated with the INDEPENDENT validity bits -/
+def validOf (p : ParsedEH) : Nat → Nat → Bool := fun i j => i == j && p.ibits.getD j 0 == 1
 
 def entryAt (p : ParsedEH) (k : Nat) : Option (EntryF (List UInt8)) := p.eh.commit.sigs[k]?
 
@@ -54,30 +56,39 @@ def spec (_ : Unit) (opl : String) (obs : String) : String :=
   match ws.head? with
   | some "reset" => "specskip"
   | some "validate" =>
-    match parseEH ws "" with
+    match parseEHObs ws "" obs with
     | some p =>
       let accepted := (words obs).head? == some "ok"
       let v := toView p.prims p.eh
-      if !specHonestAccepted v (validOf p) accepted then
+      if p.bits != p.ibits then
+        "specfail C01/sign-bytes signature validity through lumina's vote_sign_bytes differs from validity over the canonical vote"
+      else if !specHonestAccepted v (validOf p) accepted then
         "specfail C01/honest-rejected a consistent header signed by more than 2/3 was rejected"
-      else if v.storedTotal != v.powers.sum then "specskip"
+      else if v.storedTotal != v.powers.sum then
+        (if specAcceptedStructure v accepted then "specok"
+         else "specfail C01/accepted-unbound accepted a header whose parts are not bound together")
       else if !specAcceptedBinds v (validOf p) accepted then
         "specfail C01/accepted-unbound accepted a header whose parts are not bound together"
       else "specok"
     | none => "specfail C01/unparsed"
   | some "mutate" =>
-    match parseEH ws "b.", parseEH ws "m.", arg? ws "fam", natArg? ws "idx", obs.splitOn " | " with
-    | some b, some m, some fam, some k, [ob, om] =>
+    match obs.splitOn " | ", arg? ws "fam", natArg? ws "idx" with
+    | [ob, om], some fam, some k =>
+      match parseEHObs ws "b." ob, parseEHObs ws "m." om with
+      | some b, some m =>
       let accB := (words ob).head? == some "ok"
       let accM := (words om).head? == some "ok"
-      if !differs fam k b m then "specskip"
+      if b.bits != b.ibits || m.bits != m.ibits then
+        "specfail C01/sign-bytes signature validity through lumina's vote_sign_bytes differs from validity over the canonical vote"
+      else if !differs fam k b m then "specskip"
       else if specMutation accB accM then "specok"
       else if fam == "addr" then
         s!"specfail C01/commit-entry-address-unsigned validator address of commit entry {k} changed, still accepted (the address is neither signed nor compared)"
       else if (fam == "sig" || fam == "ts") && !tallied (toView b.prims b.eh) k then
         s!"specfail C01/commit-entry-not-tallied {fam} of commit entry {k} (nil/absent vote or after the 2/3 tally was reached) changed, still accepted"
       else s!"specfail C01/mutation-accepted {fam} changed, still accepted"
-    | _, _, _, _, _ => "specfail C01/unparsed"
+      | _, _ => "specfail C01/unparsed"
+    | _, _, _ => "specfail C01/unparsed"
   | _ => "specfail C01/unparsed"
 
 def handler : Driver.Handler Unit := { init := (), step := step, spec := spec }
